@@ -193,7 +193,8 @@ func runC19(c *Ctx) {
 	}
 	name := "publisher task"
 	var get, set, app, put ssa.Instruction
-	eachInstr(pub, func(in ssa.Instruction) {
+	pubRg := p.RegionOf(pub, 2) // the filtering loop may be a helper of the factory
+	pubRg.Instrs(func(_ regionSite, in ssa.Instruction) {
 		cc := callCommon(in)
 		if cc == nil {
 			return
@@ -214,6 +215,10 @@ func runC19(c *Ctx) {
 		c.Fail("R3", name, pub.Pos(), "publisher task no longer has the lookup / record / queue / store steps")
 		return
 	}
+	if get.Parent() != set.Parent() || set.Parent() != app.Parent() {
+		c.Fail("R3", name, pub.Pos(), "the lookup, the recording and the queueing of a snapshot are spread over different functions: their order on the miss edge cannot be established")
+		return
+	}
 	kg, ks := p.TermOf(callCommon(get).Args[0]), p.TermOf(callCommon(set).Args[0])
 	okKey := kg.IsField("Signature", nil) && kg.String() == ks.String()
 	c.Check(okKey, "R3", name+":key", get.Pos(), "cache keyed by the snapshot's signature, same key looked up and recorded", "cache lookup uses "+kg.String()+", recording uses "+ks.String())
@@ -227,8 +232,14 @@ func runC19(c *Ctx) {
 	el := p.TermOf(callCommon(app).Args[1])
 	sameSnap := el.Has(func(x *Term) bool { return kg.Args != nil && x.String() == kg.Args[0].String() })
 	c.Check(okEdge && sameSnap, "R3", name+":forward", app.Pos(), "queued only on the miss edge, after recording its signature", "a snapshot is queued for the store without the signature having been recorded first on the cache-miss edge (recording after the store round-trip lets a concurrent or repeated delivery forward it again), or not on the miss edge at all")
-	pb := p.TermOf(callCommon(put).Args[0])
-	okPut := (pb.Op == "alloc" || pb.Op == "struct" || pb.Op == "cell") && !pb.Has(func(x *Term) bool { return x.Op == "assert" })
+	pb := p.X(p.TermOf(callCommon(put).Args[0]))
+	// built in the task (an allocation), in no alternative the batch taken out of the context (a type assertion)
+	okPut := pb.Op == "alloc" || pb.Op == "struct" || pb.Op == "cell"
+	for _, alt := range pb.Alts() {
+		if alt.Op == "assert" || alt.Op == "cell" && alt.HasLocal(func(x *Term) bool { return x.Op == "assert" }) {
+			okPut = false
+		}
+	}
 	c.Check(okPut, "R3", name+":store", put.Pos(), "the store receives the filtered batch", "PutBatch receives "+pb.String()+", expected the filtered batch built in the task")
 }
 
